@@ -2,7 +2,7 @@
    scheduler, fork and BLAS threading are not modelled).  Statements only. *)
 From Coq Require Import List Arith Permutation.
 Import ListNotations.
-From Ticc Require Import Model.Sched Proofs.SchedP.
+From Ticc Require Import Model.Sched Model.MainLoop Proofs.SchedP Proofs.MainLoopExt.
 
 (* the gather step reads results by task index, so for EVERY completion order (and hence every
    number of workers and every assignment of tasks to workers) it returns map f args *)
@@ -17,6 +17,18 @@ Theorem C14_any_two_schedules : forall (Arg Res : Type) (f : Arg -> Res) (args :
   run_pool f args s1 d = run_pool f args s2 d.
 Proof. exact (@gather_any_two_schedules). Qed.
 Print Assumptions C14_any_two_schedules.
+
+(* whole runs: two executions of the main loop that differ only in the completion order of the
+   optimisation tasks of every round (any schedules, chosen per round by the current labelling)
+   return the same outcome - same rounds, same labels, same cost, same models *)
+Theorem C14_run_schedule_independent : forall (Arg Res C : Type) (opt : Arg -> Res) (args_of : list nat -> list Arg) (d : Arg)
+    (repopF : list nat -> option (list nat)) (labelF : list (option Res) -> list nat * C)
+    (sched1 sched2 : list nat -> list nat) (limit : nat) (init : list nat),
+  (forall l, Permutation (sched1 l) (seq 0 (length (args_of l)))) ->
+  (forall l, Permutation (sched2 l) (seq 0 (length (args_of l)))) ->
+  run repopF (fit_with opt args_of d sched1) labelF limit init = run repopF (fit_with opt args_of d sched2) labelF limit init.
+Proof. intros. apply run_schedule_independent; assumption. Qed.
+Print Assumptions C14_run_schedule_independent.
 
 (* memoised index helpers: as long as every cached pair is (k, f k), a call returns f k whatever
    calls were made earlier in the process, and calls preserve that invariant *)
